@@ -1,22 +1,32 @@
 #!/bin/bash
-# usage: confirm_seed.sh <seed dir> ; confirms in a fresh scratch worktree that (1) the demonstration passes without
-# the change, (2) fails with it, (3) the repository's stable baseline tests of the touched packages still pass with it.
+# usage: confirm_seed.sh <seed dir> [test-run-regex]; confirms in a fresh scratch worktree that (1) the demonstration
+# passes without the change, (2) fails with it, (3) the stable baseline tests of the touched packages still pass.
 DIR=$(realpath $1)
 WT=/tmp/confirm_seed_$$
 git -C /repo worktree add -q --detach $WT HEAD || exit 3
 trap "git -C /repo worktree remove --force $WT" EXIT
-CMD=$(python3 -c "import json;print(json.load(open('$DIR/meta.json'))['demo_cmd'])")
-PKG=$(echo "$CMD" | grep -o '\./[A-Za-z_/]*' | tail -1)
-for f in $DIR/*_test.go; do cp $f $WT/$PKG/; done
 cd $WT
-export JAM_FUZZ=1
-/tmp/seedkit/mkoverlay.sh $WT erasure >/dev/null
-bash -c "$CMD" > /tmp/confirm_$$.before 2>&1; rb=$?
+export JAM_FUZZ=1 GOFLAGS=-mod=mod GOPROXY=off GOTOOLCHAIN=auto
+OV=$(/tmp/seedkit/mkoverlay.sh $WT erasure)
+# place each demonstration file into the package directory whose package clause matches
+PKGS=""
+for f in $DIR/*_test.go; do
+  pk=$(grep -m1 '^package ' $f | awk '{print $2}')
+  cands=$( (grep '^+++ b/' $DIR/patch.diff | sed 's|^+++ b/||' | xargs -n1 dirname; python3 -c "import json,re;print('\n'.join(re.findall(r'\./([A-Za-z0-9_/]+)', json.load(open('$DIR/meta.json'))['demo_cmd'])))") | sort -u)
+  for d in $cands; do
+    [ -d "$WT/$d" ] || continue
+    dp=$(grep -h -m1 '^package ' $WT/$d/*.go 2>/dev/null | head -1 | awk '{print $2}')
+    if [ "$dp" = "$pk" ] || [ "${dp}_test" = "$pk" ]; then cp $f $WT/$d/; PKGS="$PKGS ./$d/"; break; fi
+  done
+done
+PKGS=$(echo $PKGS | tr ' ' '\n' | sort -u | tr '\n' ' ')
+RUN=${2:-TestSeedDemo}
+go test -overlay $OV -vet=off -count=1 -run "$RUN" $PKGS > /tmp/confirm_$$.before 2>&1; rb=$?
 git apply --whitespace=nowarn $DIR/patch.diff || { echo "PATCH DOES NOT APPLY"; exit 3; }
-bash -c "$CMD" > /tmp/confirm_$$.after 2>&1; ra=$?
-echo "demo without change: rc=$rb ($(tail -1 /tmp/confirm_$$.before | cut -c1-80)); with change: rc=$ra ($(grep -m1 -E 'FAIL|panic' /tmp/confirm_$$.after | cut -c1-100))"
-rm -f $WT/$PKG/*seed_demo_test.go
-PKGS=$(git diff --name-only | xargs -n1 dirname | sort -u | sed 's|^|./|; s|$|/...|' | tr '\n' ' ')
-BASELINE_REPO=$WT python3 /verif/tools/baseline_check.py $PKGS | tail -3
+go test -overlay $OV -vet=off -count=1 -run "$RUN" $PKGS > /tmp/confirm_$$.after 2>&1; ra=$?
+echo "demo ($PKGS) without change: rc=$rb ($(tail -1 /tmp/confirm_$$.before | cut -c1-70)); with change: rc=$ra ($(grep -m1 -E -- '--- FAIL|panic' /tmp/confirm_$$.after | cut -c1-90))"
+find $WT -name '*seed_demo*_test.go' -delete
+TP=$(git diff --name-only | xargs -n1 dirname | sort -u | sed 's|^|./|; s|$|/...|' | tr '\n' ' ')
+BASELINE_REPO=$WT python3 /verif/tools/baseline_check.py $TP | tail -2
 rm -f /tmp/confirm_$$.*
 [ $rb -eq 0 ] && [ $ra -ne 0 ]
